@@ -305,8 +305,9 @@ type Term struct {
 }
 
 type Pred struct {
-	Name  uint64
-	Terms []Term
+	Name   uint64
+	NoName bool // omit the required name field
+	Terms  []Term
 }
 
 const (
@@ -341,6 +342,8 @@ type Block struct {
 	Rules   []Rule
 	Checks  []Check
 	Extra   []byte
+	// RawFacts are raw FactV2 message bodies (hostile encodings, e.g. a fact without predicate).
+	RawFacts     [][]byte
 	NonCanonical bool
 }
 
@@ -375,7 +378,9 @@ func (t Term) encode() []byte {
 
 func (p Pred) encode() []byte {
 	var b []byte
-	b = putVarintField(b, 1, p.Name)
+	if !p.NoName {
+		b = putVarintField(b, 1, p.Name)
+	}
 	for _, t := range p.Terms {
 		b = putBytesField(b, 2, t.encode())
 	}
@@ -448,6 +453,9 @@ func (bl *Block) Encode() []byte {
 	}
 	for _, c := range bl.Checks {
 		b = putBytesField(b, 6, c.encode())
+	}
+	for _, raw := range bl.RawFacts {
+		b = putBytesField(b, 4, raw)
 	}
 	return append(b, bl.Extra...)
 }
@@ -729,3 +737,60 @@ func (t Term) String() string {
 	}
 	return "<empty>"
 }
+
+// ---- AuthorizerPolicies ------------------------------------------------------------------
+
+type Policy struct {
+	Queries []Rule
+	Kind    uint64
+	NoKind  bool
+}
+
+type Policies struct {
+	Symbols  []string
+	Version  *uint32
+	Facts    []Pred
+	Rules    []Rule
+	Checks   []Check
+	Policies []Policy
+	Extra    []byte
+}
+
+func (p *Policies) Encode() []byte {
+	var b []byte
+	for _, s := range p.Symbols {
+		b = putBytesField(b, 1, []byte(s))
+	}
+	if p.Version != nil {
+		b = putVarintField(b, 2, uint64(*p.Version))
+	}
+	for _, f := range p.Facts {
+		b = putBytesField(b, 3, putBytesField(nil, 1, f.encode()))
+	}
+	for _, r := range p.Rules {
+		b = putBytesField(b, 4, r.encode())
+	}
+	for _, c := range p.Checks {
+		b = putBytesField(b, 5, c.encode())
+	}
+	for _, pol := range p.Policies {
+		var pb []byte
+		for _, q := range pol.Queries {
+			pb = putBytesField(pb, 1, q.encode())
+		}
+		if !pol.NoKind {
+			pb = putVarintField(pb, 2, pol.Kind)
+		}
+		b = putBytesField(b, 6, pb)
+	}
+	return append(b, p.Extra...)
+}
+
+// RawField helpers for hostile encodings.
+func RawBytesField(num int, v []byte) []byte  { return putBytesField(nil, num, v) }
+func RawVarintField(num int, v uint64) []byte { return putVarintField(nil, num, v) }
+
+// EncodeTerm / EncodePred / EncodeRule expose the sub-encoders.
+func EncodeTerm(t Term) []byte { return t.encode() }
+func EncodePred(p Pred) []byte { return p.encode() }
+func EncodeRule(r Rule) []byte { return r.encode() }
